@@ -35,9 +35,10 @@ type mfCase struct {
 
 type pipeJob struct {
 	batch pipeBatch
-	kind  string // "mf" | "doif"
+	kind  string // "mf" | "doif" | "chain-mf" | "chain-doif"
 	mf    *mfCase
 	di    *doifBatch
+	ch    *chainCase
 }
 
 func makeMfJob(seed int64, id string, nRules, nGeneric, perRule int) *pipeJob {
@@ -271,9 +272,12 @@ func runPipeJobs(c *core.Ctx, jobs []*pipeJob, per, workers int) {
 			}
 			c.Count("pipeline.batches", 1)
 			c.Count("pipeline.batch_ms", r.Ms)
-			if j.kind == "mf" {
+			switch {
+			case j.ch != nil:
+				judgeChain(c, j, r)
+			case j.kind == "mf":
 				judgeMf(c, j, r)
-			} else {
+			default:
 				judgeDoif(c, j, r)
 			}
 		}
@@ -426,6 +430,7 @@ func run(c *core.Ctx) {
 		"do_if trees up to depth 4 from every operator (equal, contains, contains_any, prefix, suffix, regex; byte_len_cmp, array_len_cmp, int_val_cmp x 6 comparators; ts_cmp const/now/file_d_start in 13 formats; check_type; and/or/not), case sensitive and not, 1-5 values incl. empty, duplicate, null; " +
 		"match_fields with 0-3 conditions (value lists, bare strings, /regexp/) x {and, or, and_prefix, or_prefix, default} x match_invert; events: generic ones plus ones aimed at each rule's boundaries (absent, null, bool, number, nested object/array, lengths around the values' lengths, timestamps around thresholds). " +
 		"Each (rule,event) pair is decided at least twice (value/operand order permuted, other earlier events, reused roots). " +
+		"Selector chains: pipelines of 4 groups of 2-4 neighbouring actions whose selectors (match_fields or do_if) are identical / value-permuted / nearly identical / unrelated; an applied action sets, adds or removes the fields the group's selector reads (values aimed at the conditions, other values, removal of the field or its parent, or as controls nothing / an unrelated field) and passes the event on; each action is judged on the event as it receives it (model = generated event + mutations of the actions observed applied, checked against the event at the output). " +
 		"Concurrent clause: one Checker evaluated by 2..8 goroutines at once over disjoint decoded events (20/24 rounds, each event twice in a row) against its own sequential decisions; the same selectors in a single-processor pipeline and in a 16-processor pipeline fed by 4-8 goroutines over 4-8 streams, 6 rounds, compared per (action,event). distinct_nontrivial = distinct (rule shape, kinds of the looked-up fields, documented outcome), plus distinct (operator description, goroutines/active processors) of concurrently evaluated checkers that have both outcomes among their events.")
 	c.Assume("the naive evaluator is the specification: pipeline/doif/README.md, pipeline/README.md (match modes, datetime formats), doc comments of pipeline/plugin.go; Go regexp and time.Parse are trusted as the documented regex/time engines")
 	c.Assume("a JSON null in `values` of `equal` means 'field is null or absent' (code comment + unit test equal_nil_or_empty_string); pairs whose outcome the documentation leaves open (e.g. contains \"\" on an absent field, int_val_cmp on a fraction, match_fields on null/bool/object/array) are counted as undetermined_by_docs and not judged")
@@ -456,6 +461,19 @@ func run(c *core.Ctx) {
 	runPipeJobs(c, jobs, per, 8)
 	c.Extra("wall_pipeline_s", time.Since(t0).Seconds())
 
+	// ---- D: selector chains (chain.go): neighbouring actions with identical / nearly identical /
+	// different selectors, earlier actions change the fields later selectors read
+	t0 = time.Now()
+	var chjobs []*pipeJob
+	for i := 0; i < c.N(48, 960); i++ {
+		chjobs = append(chjobs, makeChainMfJob(c.SubSeed("chain-mf", i), fmt.Sprintf("chain-mf-%d", i), 4, 12, 8))
+	}
+	for i := 0; i < c.N(32, 640); i++ {
+		chjobs = append(chjobs, makeChainDoifJob(c.SubSeed("chain-doif", i), fmt.Sprintf("chain-doif-%d", i), 4, 12, 8))
+	}
+	runPipeJobs(c, chjobs, per, 8)
+	c.Extra("wall_selector_chains_s", time.Since(t0).Seconds())
+
 	// ---- E + F: the concurrent clause (conc.go)
 	t0 = time.Now()
 	nConc := c.N(300, 3000)
@@ -485,6 +503,14 @@ func run(c *core.Ctx) {
 	}
 	for _, m := range []string{"and", "or", "and_prefix", "or_prefix"} {
 		need = append(need, "mf."+m+".applied", "mf."+m+".skipped")
+	}
+	for _, k := range []string{"mf", "doif"} {
+		need = append(need, "chain."+k+".applied", "chain."+k+".skipped", "chain."+k+".events_followed_to_the_output",
+			"chain."+k+".identical_selector.decision_changed_by_previous_action",
+			"chain."+k+".identical_selector.field_changed_by_previous_action_same_decision",
+			"chain."+k+".identical_selector.previous_action_skipped",
+			"chain."+k+".near_selector.decision_changed_by_previous_action",
+			"chain."+k+".different_selector.decision_changed_by_previous_action")
 	}
 	for d := 0; d <= 4; d++ {
 		need = append(need, fmt.Sprintf("doif.tree.depth%d.true", d), fmt.Sprintf("doif.tree.depth%d.false", d))
